@@ -304,10 +304,10 @@ impl Model {
 
         // read once per heart beat: the clear decision below and `processed` must agree on it
         let reader_stopped = self.reader_control.as_ref().map(ReaderControl::is_done).unwrap_or(true);
+        #[cfg(feature = "verif")]
+        crate::verif::point("hb.done", reader_stopped as usize, 0);
 
         if matcher_stopped {
-            #[cfg(feature = "verif")]
-            crate::verif::point("hb.done1", reader_stopped as usize, 0);
             let ctrl = self.matcher_control.take().unwrap();
             let lock = ctrl.into_items();
             let mut items = lock.lock();
@@ -339,7 +339,7 @@ impl Model {
         let items_consumed = self.item_pool.num_not_taken() == 0;
         let processed = reader_stopped && items_consumed;
         #[cfg(feature = "verif")]
-        crate::verif::point("hb.done2", reader_stopped as usize, items_consumed as usize);
+        crate::verif::point("hb.consumed", items_consumed as usize, 0);
 
         // run matcher if matcher had been stopped and reader had new items.
         if !processed && self.matcher_control.is_none() {
